@@ -30,6 +30,7 @@ def run(ctx):
     r5(ctx)
     from rules import c08
     c08.todo_accounting(ctx, 'R6')
+    r6_entry(ctx)
     r7(ctx)
 
 
@@ -170,6 +171,26 @@ def _return_conversions(ctx, prog, f, ev, rb, rs):
                   'the operand of the conversion %s is within %s: [0, INT32_MAX] or the -1 sentinel' % (estr(node, True), list(iv)),
                   'the conversion %s can see %s: a duration >= 2^31 ms becomes a negative poll timeout (block forever) or wraps' % (
                       estr(node, True), ['[%#x, %#x]' % b for b in bad]), {'ranges': [list(x) for x in iv]})
+
+
+def r6_entry(ctx):
+    """the count that keeps the loop from sleeping is the sum of the levels' todo counts whenever the timeout is chosen - on the first
+    pass of a run as well (items expired or polled before a qb_loop_stop are still queued when the loop is run again)"""
+    from engine.qb import abstract_run, TOP
+    f = ctx.prog.fn('qb_loop_run')
+    tests = [ev for ev in f.events('LOAD') if f.blocks[ev.blk].cond is not None and unwrap(ev.e).get('k') == 'var' and
+             any(a.ls == unwrap(ev.e)['n'] and a.op == '>' and a.rc == 0 for a in atoms_of(f.blocks[ev.blk].cond, True)) and
+             any(st.d['op'] == '+=' and last_field(st.rhs) == ('qb_loop_level', 'todo') for st in f.events('STORE') if estr(st.lhs) == estr(ev.e))]
+    if not tests:
+        raise AnalysisBroken('qb_loop_run: no test of the summed todo count')
+    var = unwrap(tests[0].e)['n']
+    idx = {estr(unwrap(n['i'])) for st in f.events('STORE') if estr(st.lhs) == var and st.d['op'] == '+=' for n in walk(st.rhs) if n.get('k') == 'idx'}
+    visits, _t = abstract_run(f, {}, tracked={var} | {i for i in idx if i.isidentifier()})
+    stale = [(ev, env) for (ev, env) in visits if any(ev.d is t.d for t in tests) and env.get(var, TOP) is not TOP]
+    ctx.check('R6', 'todo-sum-is-a-sum-when-the-timeout-is-chosen', not stale, stale[0][0] if stale else tests[0],
+              'whenever the timeout is chosen %s has been summed over the levels' % var,
+              'the timeout can be chosen with %s = %s, a constant that was never summed over the levels: items queued for dispatch when a previous run was stopped '
+              'are still there, and the loop sleeps until the next timer (or for ever) with an expired timer queued' % (var, stale[0][1].get(var) if stale else '?'))
 
 
 def r2(ctx):
